@@ -25,7 +25,7 @@ class Game(AsyncMode):
 
     __slots__ = ["_balls_in_play", "player_list", "slam_tilted", "tilted", "ending", "num_players",
                  "_stopping_modes", "_stopping_queue", "_end_ball_event", "_at_least_one_player_event",
-                 "balls_per_game", "max_players"]
+                 "balls_per_game", "max_players", "_first_round_complete"]
 
     def __init__(self, *args, **kwargs):
         """Initialize game."""
@@ -44,6 +44,7 @@ class Game(AsyncMode):
         self._at_least_one_player_event = None  # type: asyncio.Event
         self.balls_per_game = None
         self.max_players = None
+        self._first_round_complete = False
 
         self.machine.events.add_handler('mode_{}_stopping'.format(self.name), self._stop_game_modes)
 
@@ -58,6 +59,7 @@ class Game(AsyncMode):
         self.tilted = False
         self.ending = False
         self.num_players = 0
+        self._first_round_complete = False
         self._balls_in_play = 0
         self._stopping_modes = []
         self._stopping_queue = None
@@ -552,7 +554,7 @@ class Game(AsyncMode):
             self.debug_log("Game is at max players. Cannot add another.")
             return False
 
-        if self.player and self.player.ball > 1:  # todo config setting
+        if self._first_round_complete or (self.player and self.player.ball > 1):  # todo config setting
             self.debug_log("Current ball is after Ball 1. Cannot add player.")
             return False
 
@@ -776,6 +778,9 @@ class Game(AsyncMode):
             # i.e. "Player 1" has an index of 0, etc. So using the current
             # player number as the next player's index works out.
         else:
+            if self.player:
+                # every player has played ball 1 (the first player's ball counter is only incremented later)
+                self._first_round_complete = True
             # no current player, grab the first one
             self.player = self.player_list[0]
 
